@@ -1,6 +1,7 @@
 // U04 ids -- id resolution: types.rs (OpId), automerge.rs (exid_to_opid, op_cursor_to_opid),
 // op_set2/op_set.rs (get_actor_safe)   (engine V)
 use vstd::prelude::*;
+use std::cmp::Ordering;
 verus! {
 
 // ---------------------------------------------------------------- assumed environment (trusted)
@@ -60,6 +61,31 @@ impl OpId {
         // reachable from a user-supplied id or cursor to establish
         requires counter <= u32::MAX, actor <= u32::MAX,
         ensures r.0 == counter, r.1 == actor,
+//@ end
+}
+
+// ---- the document's own cached actor index follows actor-table shifts (automerge.rs, enum Actor)
+//@ item rust/automerge/src/automerge.rs | enum Actor
+impl Actor {
+//@ fn rust/automerge/src/automerge.rs | impl Actor | remove_actor
+//@   spec
+        requires index < actors.len(),
+        ensures
+            // C30: removing table entry `index` keeps a cached index pointing at the SAME actor,
+            // or (if it was that entry) falls back to carrying the actor id itself
+            *old(self) matches Actor::Cached(i) ==> (
+                (i == index ==> *final(self) == Actor::Unused(actors[index as int]))
+                && (i > index ==> *final(self) == Actor::Cached((i - 1) as usize))
+                && (i < index ==> *final(self) == Actor::Cached(i))),
+            *old(self) is Unused ==> *final(self) == *old(self),
+//@ end
+
+//@ fn rust/automerge/src/automerge.rs | impl Actor | rewrite_with_new_actor
+//@   spec
+        requires *old(self) matches Actor::Cached(i) ==> i < usize::MAX,
+        ensures
+            *old(self) matches Actor::Cached(i) ==> *final(self) == Actor::Cached(if i >= index { (i + 1) as usize } else { i }),
+            *old(self) is Unused ==> *final(self) == *old(self),
 //@ end
 }
 
